@@ -9,7 +9,7 @@
    handles reached through ndarray.base. *)
 From Coq Require Import ZArith List Bool Arith Lia.
 Import ListNotations.
-Require Import NV.C07.Model NV.C07.Proofs.
+Require Import NV.C07.Model NV.C07.Proofs NV.C07.ProofsNeg.
 
 (* Immutability: for every admissible history h1 ++ h2 (unbounded), a field that shows value v after
    h1 shows v after h1 ++ h2: whatever later happens through the source array, .raw/.val/
@@ -82,6 +82,28 @@ Theorem C07_rw_copies_are_fresh :
     nd_at s1 (length (nds s)) = Some (mkNd (length (bufs s)) true) /\
     nth_error (bufs s1) (length (bufs s)) = obs_fld s f.
 Proof. exact rw_copies_fresh. Qed.
+
+(* Derived fields: -f (Field.__neg__; also f * (-1), (-1) * f, f.scale(-1)) returns a NEW field, the
+   next field id, which shows the negated value f had at that moment after every admissible
+   continuation h2 (unbounded), and f itself keeps its value: NIFTy needs no hypothesis for fields it
+   builds itself (FieldNeg is unconstrained in adm). *)
+Theorem C07_negated_field_fixed_and_parent_kept :
+  forall (L : nat) (h1 h2 : list op) (f : nat) (v : list Z),
+    adm_run true L init (h1 ++ FieldNeg f :: h2) = true ->
+    obs_fld (run true L init h1) f = Some v ->
+    snd (step true L (run true L init h1) (FieldNeg f)) = RFld (length (flds (run true L init h1))) /\
+    obs_fld (run true L init (h1 ++ FieldNeg f :: h2)) (length (flds (run true L init h1))) = Some (map Z.opp v) /\
+    obs_fld (run true L init (h1 ++ FieldNeg f :: h2)) f = Some v.
+Proof. exact neg_field_value. Qed.
+
+(* non-vacuity: -f of a field built from a caller array; writes through the source, through the
+   handles of -f and through a view of its raw array all raise or miss; values stay [1;-2] / [-1;2] *)
+Example C07_negated_field_example :
+  let h := [NewArr [1; -2]%Z; MkField 0; FieldNeg 0; FieldRaw 1; NdWrite 1 0 9%Z; NdView 1;
+            NdWrite 2 1 5%Z; NdWrite 0 0 7%Z; FieldVal 1; AnySetItem 1 0 4%Z] in
+  adm_run true 2 init h = true /\
+  map (obs_fld (run true 2 init h)) [0; 1] = [Some [1; -2]; Some [-1; 2]]%Z.
+Proof. vm_compute. repeat split. Qed.
 
 (* Totalisations of the model are unreachable: every buffer of every history has length L, so
    zip_add never truncates and nd_val never falls back to []. *)
